@@ -235,7 +235,7 @@ theorem reopen_trust (env : Env) (hadv : env.advInvalid = true) (s : State) (sp 
   exact hT k e r0 he ht a2
 
 theorem step_trust (env : Env) (hadv : env.advInvalid = true) (s : State) (sp : Spec) (n : Nat) (hC : Core env s sp n)
-    (hT : Trust s sp) (op : Op) (hn : n < 2^31) : Trust (step env s op).1 (specStep sp op) := by
+    (hT : Trust s sp) (op : Op) (hn : n < 2^31) : Trust (step env s op).1 (specStep s sp op) := by
   have hopn := hC.opn
   cases op with
   | reopen o =>
@@ -311,10 +311,20 @@ theorem step_trust (env : Env) (hadv : env.advInvalid = true) (s : State) (sp : 
         exact blockInvalid_trust s sp sp hT hash (fun _ _ => rfl) (fun e' he' => by rw [hsp] at he'; cases he')
       | some e0 =>
         simp only
-        refine blockInvalid_trust s sp _ hT hash (fun k' hne => by simp only [AL.get_set, if_neg hne]) ?_
-        intro e' he'
-        simp only [AL.get_set, ↓reduceIte, Option.some.injEq] at he'
-        subst he'; rfl
+        have htaint : Trust (blockInvalid s hash).1 { isOpen := true, m := AL.set sp.m (keyOf hash) { e0 with tainted := true } } := by
+          refine blockInvalid_trust s sp _ hT hash (fun k' hne => by simp only [AL.get_set, if_neg hne]) ?_
+          intro e' he'
+          simp only [AL.get_set, ↓reduceIte, Option.some.injEq] at he'
+          subst he'; rfl
+        by_cases hf : forgets s (keyOf hash) = true
+        · simp only [hf, ↓reduceIte]
+          refine trust_change _ _ _ _ htaint (keyOf hash) (fun _ _ => rfl)
+            (fun k' hne => by simp only [AL.get_set, AL.get_del, if_neg hne]) ?_
+          intro e' r' he'
+          simp only [AL.get_del, ↓reduceIte] at he'
+          cases he'
+        · simp only [hf, Bool.false_eq_true, ↓reduceIte]
+          exact htaint
     · simp only [ho, hopn, Bool.not_false, ↓reduceIte]; exact hT
   | idle =>
     unfold step specStep
@@ -332,7 +342,7 @@ theorem step_trust (env : Env) (hadv : env.advInvalid = true) (s : State) (sp : 
 
 theorem run_trust (env : Env) (hadv : env.advInvalid = true) : ∀ (ops : List Op) (s : State) (sp : Spec) (n : Nat),
     Core env s sp n → Trust s sp → (∀ op ∈ ops, Op.wf env op) → n + ops.length < 2^31 →
-    Trust (run env s ops).1 (specFinal sp ops) := by
+    Trust (run env s ops).1 (specFinal env s sp ops) := by
   intro ops
   induction ops with
   | nil => intro s sp n _ h _ _; exact h
@@ -342,7 +352,6 @@ theorem run_trust (env : Env) (hadv : env.advInvalid = true) : ∀ (ops : List O
     have h1 := step_core env hadv s sp n hC op (hwf op (by simp)) (by omega)
     have h2 := step_trust env hadv s sp n hC hT op (by omega)
     unfold run specFinal
-    simp only [List.foldl_cons]
     exact ih _ _ (n + 1) h1 h2 (fun op' hop' => hwf op' (by simp [hop'])) (by omega)
 
 theorem init_trust : Trust init {} := by
